@@ -1,5 +1,5 @@
 import Rawr.Generated.RustSearch
-import Rawr.Proofs.RustImpAgree
+
 /-!
 # The hand-written model agrees with the SEARCH-side functions regenerated from the Rust source (part 1)
 
